@@ -7,7 +7,7 @@ let c12_jnum (s : string) : jnum =
   else
     let b = bytes_of_hex s in
     let txt = String.concat "" (List.map (fun n -> String.make 1 (Char.chr (int_of_n n))) b) in
-    if txt = "null" then JNull else json_int_literal b
+    if txt = "null" then JNull else gd_json_int_literal b
 
 let c12_cfg bs = { bufsize = z_of_string bs; term_cols = Z0 }
 
@@ -15,7 +15,7 @@ let c12_data = function DReject -> "rej" | DFinish -> "fin" | DRead n -> "read:"
 
 let () =
   register "c12_parse_int" (function [s] ->
-      (match parse_int64 (bytes_of_hex s) with Some v -> "ok:" ^ string_of_z v | None -> "err") | _ -> "?args");
+      (match gd_parse_int64 (bytes_of_hex s) with Some v -> "ok:" ^ string_of_z v | None -> "err") | _ -> "?args");
   register "c12_cur_ack" (function [a; b] ->
       (match recv_current_ack (bytes_of_hex a) (bytes_of_hex b) with
        | Some (l, s) -> "ok:" ^ string_of_z l ^ "/" ^ string_of_z s | None -> "err") | _ -> "?args");
@@ -44,8 +44,8 @@ let () =
         | [] -> List.rev (List.rev cur :: acc)
         | c :: r -> if int_of_n c = 46 then split [] (List.rev cur :: acc) r else split (c :: cur) acc r in
       (match split [] [] b with
-       | [a; b; c] -> (match parse_version a b c with
+       | [a; b; c] -> (match gd_parse_version a b c with
            | Some ((x, y), z) -> "ok:" ^ String.concat "." (List.map string_of_z [x; y; z]) | None -> "err")
        | _ -> "err") | _ -> "?args");
   register "c12_target_size" (function [s] ->
-      (match target_size (c12_jnum s) with Some v -> "ok:" ^ string_of_z v | None -> "err") | _ -> "?args")
+      (match gd_target_size (c12_jnum s) with Some v -> "ok:" ^ string_of_z v | None -> "err") | _ -> "?args")
